@@ -336,6 +336,8 @@ def _commutes_rules(ctx, repo):
                z.mod.rel, fn.lineno)
 
     _trace_distance_rules(ctx, repo)
+    ctx.decided.append('C08.i no statement discards the result of a value-semantics method (inverse / then / with_* / replace ...): `t.inverse()` without rebinding is a no-op')
+    shared.discarded_value_rule(ctx, 'C08.i')
 
 
 def _true_trace_distance(angles):
